@@ -15,10 +15,11 @@ env = dict(os.environ, GOFLAGS="-mod=mod", GOPROXY="off", GOSUMDB="off", GOTOOLC
 mods = glob.glob("/verif/build/p*/vectors.mod")
 def run(i):
     out = "/tmp/shrun-%d-%d.json" % (os.getpid(), i)
-    cmd = ["/verif/bin/zsx", "-repo", repo, "-harness-dir", "/verif/harness", "-harness", h, "-out", out, "-wall", wall, "-skip-known", skip, "-max-violations", "2"]
+    cmd = [os.environ.get("ZSX", "/verif/bin/zsx"), "-repo", repo, "-harness-dir", os.environ.get("HDIR", "/verif/harness"), "-harness", h, "-out", out, "-wall", wall, "-skip-known", skip, "-max-violations", "2"]
     cmd += ["-tags", "vectors,verif", "-modfile", mods[0]] if vec else ["-tags", "verif"]
     if n > 1: cmd += ["-shard", "%d/%d" % (i, n)]
     if param: cmd += ["-param", param]
+    if os.environ.get("SHARD_DEPTH"): cmd += ["-shard-depth", os.environ["SHARD_DEPTH"]]
     t = time.time(); r = subprocess.run(cmd, env=env, capture_output=True, text=True)
     try: d = json.load(open(out)); os.remove(out)
     except Exception: return {"err": r.stderr[-500:]}
